@@ -86,13 +86,13 @@ package proto
 //@ callsite (ColumnType).Conflicts#1
 //@   assert arg1 == t && arg0 == c.DataType [C18,C19] {kept-only-if-the-whole-type-is-compatible}
 //@ callsite new:ColDecimal32#1
-//@   assert 1 <= prec && prec < 10 [C19] {decimal32-for-precision-1-to-9}
+//@   assert 1 <= prec && prec < 10 [C01,C19] {decimal32-for-precision-1-to-9}
 //@ callsite new:ColDecimal64#1
-//@   assert 10 <= prec && prec < 19 [C19] {decimal64-for-precision-10-to-18}
+//@   assert 10 <= prec && prec < 19 [C01,C19] {decimal64-for-precision-10-to-18}
 //@ callsite new:ColDecimal128#1
-//@   assert 19 <= prec && prec < 39 [C19] {decimal128-for-precision-19-to-38}
+//@   assert 19 <= prec && prec < 39 [C01,C19] {decimal128-for-precision-19-to-38}
 //@ callsite new:ColDecimal256#1
-//@   assert 39 <= prec && prec < 77 [C19] {decimal256-for-precision-39-to-76}
+//@   assert 39 <= prec && prec < 77 [C01,C19] {decimal256-for-precision-39-to-76}
 
 //@ contract (c *ColDateTime64) Infer(t) (err) props(C16,C18,C19)
 //@   requires c != nil
@@ -105,15 +105,22 @@ package proto
 // C19: Enum parameter parsing is total - whatever the text between the parentheses looks like
 // (empty names, missing quotes, no '=', arbitrary bytes) it ends in an error or a definition,
 // never in a panic.
-//@ contract (e *ColEnum) parse(t) (err) props(C19)
+//@ -- parsedArr/parsedLen: the type string the value maps were last built from (ghost; set by parse)
+//@ ghost field (ColEnum) parsedArr Bytes
+//@ ghost field (ColEnum) parsedLen Int
+//@ contract (e *ColEnum) parse(t) (err) props(C16,C19)
 //@   requires e != nil
-//@   modifies e.rawToStr, e.strToRaw, contents(e.rawToStr), contents(e.strToRaw)
+//@   modifies e.rawToStr, e.strToRaw, contents(e.rawToStr), contents(e.strToRaw), e.parsedArr, e.parsedLen
+//@   ensures [abstract] err == nil ==> e.parsedArr == arrayof(t) && e.parsedLen == len(t)
 //@ loop 0 (rangeindex)
 //@   modifies contents(e.rawToStr), contents(e.strToRaw)
 //@   invariant e.rawToStr != nil && e.strToRaw != nil
-//@ contract (e *ColEnum) Infer(t) (err) props(C19)
+//@ contract (e *ColEnum) Infer(t) (err) props(C16,C19)
 //@   requires e != nil
-//@   modifies e.rawToStr, e.strToRaw, contents(e.rawToStr), contents(e.strToRaw), e.base, e.t
+//@   modifies e.rawToStr, e.strToRaw, contents(e.rawToStr), contents(e.strToRaw), e.base, e.t, e.parsedArr, e.parsedLen
+//@ -- a reused Enum column re-reads the definition on every successful Infer: its name/value maps
+//@ -- always belong to the type it reports, whatever it was inferred for before
+//@   ensures err == nil ==> e.parsedArr == arrayof(t) && e.parsedLen == len(t) [C16,C19] {value-maps-rebuilt-from-the-inferred-type}
 
 // ---------------------------------------------------------------------------
 // C19: the generated inference table.  A type name yields the column type of that name (literal
